@@ -59,6 +59,18 @@ class Gen:
         return self.items[self.taken - 1]
 
 
+class Shelf:
+    """a user defined collection whose __iter__ is a generator function: iterating it is a call into user code"""
+
+    def __init__(self, items):
+        self.items = items
+
+    def __iter__(self):
+        for i in self.items:
+            LOG.append(("iter", "shelf"))
+            yield i
+
+
 @dataclass(eq=False)
 class LoggedPred(Predicate):
     obj: Any
@@ -112,6 +124,8 @@ def special_construction_case(which):
             lit = Gen("lit", [k, k + 1])
             extra.append(lit)
             q = an(entity(x, in_(x.a, lit)))
+        elif which == "user-iterable-literal":
+            q = an(entity(x, in_(x.a, Shelf([k, k + 1]))))
         elif which == "list-literal-of-objects":
             q = an(entity(x, in_(x, [xs[0], xs[1]])))  # the literal's first element must not be inspected (bool) at build time
         elif which == "object-literal-operand":
@@ -344,7 +358,7 @@ def cases(tier, seed):
             continue
         seen.add(name)
         cs.append(Case(name, construction_case(cond, sel, 1), reset=eql_reset, validate=1, timeout=120))
-    for which in ("iterator-literal", "list-literal-of-objects", "object-literal-operand", "predicate", "symbolic-function", "symbolic-function-positional-attr", "rule-tree", "match-with-variable-value", "match-nested"):
+    for which in ("iterator-literal", "user-iterable-literal", "list-literal-of-objects", "object-literal-operand", "predicate", "symbolic-function", "symbolic-function-positional-attr", "rule-tree", "match-with-variable-value", "match-nested"):
         cs.append(Case("build " + which, special_construction_case(which), reset=eql_reset, validate=1))
     # (b) consumption
     x, y = "x", "y"
